@@ -449,6 +449,7 @@ def _tlc_part(arg):
     hists = res.payloads.get('HIST', [])
     sink = Sink()
     obs = Observer(alpha, obs_cap) if obs_cap else None
+    _start_task()
     steps = skipped = 0
     keys = set()
     for i, h in enumerate(hists):
@@ -482,10 +483,13 @@ def _cpu():
     return t[0] + t[1] + t[2] + t[3]
 
 
-def _task(t):
-    c0 = _cpu()
+def _start_task():
     W.start_task()
     _SLOWEST[0], _SLOWEST[1] = 0.0, None
+
+
+def _task(t):
+    c0 = _cpu()
     r = _tlc_part(t[1]) if t[0] == 'tlc' else _record_part(t[1])
     if os.environ.get('C10_PROFILE'):
         print('PROFILE %s %s cpu=%.1f' % (t[0], [x for x in t[1] if isinstance(x, (str, int, bool))][:8], _cpu() - c0), file=sys.stderr)
@@ -847,6 +851,7 @@ def _record_part(arg):
     rnd = random.Random(vlib.seed() * 7919 + part * 104729 + sum(ord(c) for c in name))
     out = []
     sink = Sink()
+    _start_task()
     if part == 0:
         for sc in scripted(name):
             out.append(guarded_trace(sink, fx, rnd, 0, True, reread=True, script=sc))
@@ -1075,7 +1080,7 @@ def run(tier, replay=None):
     d = vlib.scratch('c10')
     quick = tier == 'quick'
     if not os.environ.get('C10_TASK_CPU'):
-        W.TASK_CPU = 240.0 if quick else 1200.0     # (inherited by the forked workers) ordinary tasks: see termination_guard in the evidence
+        W.TASK_CPU = 90.0 if quick else 900.0     # (inherited by the forked workers) ordinary tasks: see termination_guard in the evidence
     try:
         tasks = []
         # spec -> code: exhaustive histories of mutating calls on small real trees (+ read-only observations on every forest reached)
